@@ -55,6 +55,16 @@ def switch(target_handle: Handle[World], clear_current=False, clear_next=False,
     if from_world is None:
         from_world = desper.default_loop.current_world
 
+    # Clear handles before retrieving the target world, so that events
+    # reach the world instance that will actually be executed. Leaving
+    # and clearing the handle that is also the target means reloading it
+    self_switch = (from_world is not None and target_handle.cached
+                   and target_handle() is from_world)
+    if clear_next or (clear_current and self_switch):
+        target_handle.clear()
+    clear_current = clear_current and not self_switch
+    clear_next = False
+
     to_world = target_handle()
 
     if from_world is not None:
